@@ -191,3 +191,15 @@ pub proof fn lemma_select_step(f: &Fsm, atomics: Seq<u32>, k: int, ev: Option<Se
 {
     assert(sel_w(en1, lg1));
 }
+
+/// any list of references to the transitions of s (in list order) is `trs_ref(f, s)`
+pub proof fn lemma_trs_ref_all(f: &Fsm, s: u32)
+    ensures
+        forall|l: Seq<&Transition>| l.len() == st(f, s).transitions.data@.len() && (forall|i: int| 0 <= i < l.len() ==> *(#[trigger] l[i]) == tr(f, st(f, s).transitions.data@[i]))
+            ==> #[trigger] l.to_multiset() == trs_ref(f, s).to_multiset() && l == trs_ref(f, s),
+{
+    assert forall|l: Seq<&Transition>| l.len() == st(f, s).transitions.data@.len() && (forall|i: int| 0 <= i < l.len() ==> *(#[trigger] l[i]) == tr(f, st(f, s).transitions.data@[i]))
+        implies #[trigger] l.to_multiset() == trs_ref(f, s).to_multiset() && l == trs_ref(f, s) by {
+        assert(l =~= trs_ref(f, s));
+    }
+}
